@@ -896,7 +896,8 @@ Definition model_obs (c : cfg) (s : st) (x : step) : st * obs :=
           ob_evs := rev (firstn (length (evs s') - length (evs s)) (evs s'));
           ob_nerr := length (errs s') - length (errs s);
           ob_list := api_list s';
-          ob_led := map (fun fp : N * string => (fp.1, fp.2, false)) (ledger_list s');
+          ob_led := map (fun fp : N * string =>
+                          (fp.1, fp.2, Nat.eqb (nlink (fs_of s') (snd (default ("", 0) (k_led (K s') !! fp.1)))) 0)) (ledger_list s');
           ob_infra := infra s';
           ob_sizes := sizes s' |}).
 
